@@ -217,7 +217,9 @@ func c17PropReplica(t vpT, c c17rCase, dir string, st *c17rStats) (nontrivial bo
 	closeEngine := func() {
 		ctx, cancel := context.WithTimeout(context.Background(), 20*time.Second)
 		defer cancel()
-		if err := eng.Close(ctx); err != nil && !strings.Contains(err.Error(), "binlog closed") { // nothing to wait for: the binlog will never commit the rest
+		err := eng.Close(ctx)
+		eng.stop()                                                         // Close leaves the engine's txLoop goroutine running; thousands of them kill a long test process
+		if err != nil && !strings.Contains(err.Error(), "binlog closed") { // nothing to wait for: the binlog will never commit the rest
 			if ctx.Err() != nil {
 				t.Fatalf("VP-INCONCLUSIVE Close did not return")
 			}
@@ -229,6 +231,7 @@ func c17PropReplica(t vpT, c c17rCase, dir string, st *c17rStats) (nontrivial bo
 			script.RequestShutdown()
 			ctx, cancel := context.WithTimeout(context.Background(), 5*time.Second)
 			_ = eng.Close(ctx)
+			eng.stop()
 			cancel()
 		}
 	}()
@@ -408,6 +411,7 @@ func c17PropReplica(t vpT, c c17rCase, dir string, st *c17rStats) (nontrivial bo
 		})
 		ctx, cancel := context.WithTimeout(context.Background(), 20*time.Second)
 		cerr := m.Close(ctx)
+		m.stop()
 		cancel()
 		if err != nil || cerr != nil {
 			t.Fatalf("master on the committed binlog: Do %v, Close %v", err, cerr)
